@@ -265,3 +265,163 @@ pub fn generate_merge(seed: u64, n: usize, tier: &str, emit: &mut dyn FnMut(Stri
         emit(format!("{nvars} {} {}", r.below(nvars), tes.join(" ")));
     }
 }
+
+// ------------------------------------------------------------------------------ unify
+
+use std::{cell::Cell, collections::BTreeMap, rc::Rc};
+use storage_layout_extractor::{tc::unification::unify, verif_hooks, watchdog::Watchdog};
+
+/// A watchdog that counts polls and says stop once `budget` polls have been answered.
+#[derive(Debug)]
+pub struct CountingWatchdog {
+    pub polls: Cell<usize>,
+    pub stop_at: usize,
+    pub every: usize,
+}
+
+impl Watchdog for CountingWatchdog {
+    fn should_stop(&self) -> bool {
+        let n = self.polls.get();
+        self.polls.set(n + 1);
+        n >= self.stop_at
+    }
+    fn poll_every(&self) -> usize {
+        self.every
+    }
+}
+
+pub fn set_order(name: &str) {
+    let o = match name {
+        "natural" => verif_hooks::Order::Natural,
+        "reversed" => verif_hooks::Order::Reversed,
+        "sorted" => verif_hooks::Order::Sorted,
+        s if s.starts_with("seed") => verif_hooks::Order::Seeded(s[4..].parse().unwrap_or(1)),
+        _ => verif_hooks::Order::Natural,
+    };
+    verif_hooks::set_order(o);
+}
+
+/// Variable-name-free rendering of what a variable resolved to.
+fn resolve(st: &mut TypeCheckerState, v: TypeVariable, depth: usize, seen: &mut Vec<usize>) -> String {
+    let root = st.result().find(&v).index();
+    if seen.contains(&root) {
+        return "#cycle".into();
+    }
+    if depth == 0 {
+        return "#deep".into();
+    }
+    let data = st.result().get_data(&v).cloned();
+    let Some(set) = data else { return "#nodata".into() };
+    let mut items: Vec<TE> = set.into_iter().collect();
+    if items.is_empty() {
+        return "any0".into();
+    }
+    if items.len() > 1 {
+        items.sort_by_cached_key(|e| format!("{e:?}"));
+        let parts: Vec<String> = items.iter().map(te_text).collect();
+        return format!("#multi({})", parts.join("&"));
+    }
+    seen.push(root);
+    let r = match &items[0] {
+        TE::Mapping { key, value } => {
+            format!("map({},{})", resolve(st, *key, depth - 1, seen), resolve(st, *value, depth - 1, seen))
+        }
+        TE::DynamicArray { element } => format!("dyn({})", resolve(st, *element, depth - 1, seen)),
+        TE::FixedArray { element, length } => format!("fixed({},{length})", resolve(st, *element, depth - 1, seen)),
+        TE::Packed { types, is_struct } => {
+            let parts: Vec<String> =
+                types.iter().map(|s| format!("{}+{}:{}", s.offset, s.size, resolve(st, s.typ, depth - 1, seen))).collect();
+            format!("{}[{}]", if *is_struct { "struct" } else { "packed" }, parts.join(","))
+        }
+        TE::Equal { .. } => "#EQUAL".into(),
+        other => te_text(other),
+    };
+    seen.pop();
+    r
+}
+
+pub fn eval_unify(payload: &str) -> String {
+    let t: Vec<&str> = payload.split_whitespace().collect();
+    set_order(t[0]);
+    let nvars: usize = t[1].parse().unwrap();
+    let budget: usize = t[2].parse().unwrap();
+    let mut st = fresh_state(nvars);
+    for j in &t[3..] {
+        let (v, e) = j.split_once('>').expect("judgement");
+        st.infer(tv(v.parse().unwrap()), parse_te(e));
+    }
+    let wd = Rc::new(CountingWatchdog { polls: Cell::new(0), stop_at: budget, every: 1 });
+    let dynwd: Rc<dyn Watchdog> = wd.clone();
+    let res = unify(&mut st, &dynwd);
+    set_order("natural");
+    let polls = wd.polls.get();
+    let head = match &res {
+        Ok(()) => "res=ok".to_string(),
+        Err(es) => {
+            let names: Vec<String> = es
+                .payloads()
+                .iter()
+                .map(|e| format!("{:?}", e.payload).split(|c: char| !c.is_alphanumeric()).next().unwrap_or("?").to_string())
+                .collect();
+            format!("res=err:{}", names.join(","))
+        }
+    };
+    if res.is_err() {
+        return format!("{head} polls={polls}");
+    }
+    // partition of the original variables
+    let mut classes: BTreeMap<usize, Vec<usize>> = BTreeMap::new();
+    for v in 0..nvars {
+        let r = st.result().find(&tv(v)).index();
+        classes.entry(r).or_default().push(v);
+    }
+    let mut cl: Vec<Vec<usize>> = classes.into_values().collect();
+    cl.sort();
+    let cls: Vec<String> = cl.iter().map(|c| c.iter().map(|x| x.to_string()).collect::<Vec<_>>().join(",")).collect();
+    let types: Vec<String> = (0..nvars).map(|v| format!("{v}:{}", resolve(&mut st, tv(v), 6, &mut vec![]))).collect();
+    format!("{head} classes=[{}] types=[{}]", cls.join("|"), types.join(";"))
+}
+
+fn gen_judgements(r: &mut Rng, nvars: usize, packed: bool, cyclic: bool) -> Vec<String> {
+    let mut js = vec![];
+    let n = 1 + r.below(nvars * 2);
+    for _ in 0..n {
+        let v = r.below(nvars);
+        let e = match r.below(10) {
+            0..=2 => format!("eq:{}", r.below(nvars)),
+            3 if cyclic => format!("map:{}:{}", r.below(nvars), v),
+            _ => random_te(r, nvars, packed),
+        };
+        if e == "conflict" {
+            continue;
+        }
+        js.push(format!("{v}>{e}"));
+    }
+    js
+}
+
+pub const UNIFY_FIXED: [&str; 8] = [
+    "sorted 3 2000 0>eq:1 1>eq:2 0>word:?:numeric 2>word:256:unsignedNumeric",
+    "sorted 4 2000 0>map:1:2 0>map:3:3 1>word:160:address 2>word:?:bytes",
+    "sorted 3 2000 0>dyn:1 0>word:?:unsignedNumeric 0>bytes",
+    "sorted 3 2000 0>word:8:bool 0>word:160:address 0>bytes",
+    "sorted 2 2000 0>packed:p:0,0,160 0>word:160:address",            // self-referential packed (D12)
+    "sorted 4 2000 0>packed:p:1,0,8/2,8,8 0>packed:p:3,0,16",
+    "sorted 3 2000 0>packed:p:1,0,128 0>word:128:unsignedNumeric",
+    "sorted 2 2000 0>map:0:1 0>eq:1",
+];
+
+pub fn generate_unify(seed: u64, n: usize, _tier: &str, emit: &mut dyn FnMut(String)) {
+    for f in UNIFY_FIXED {
+        emit(f.to_string());
+    }
+    for idx in 0..n {
+        let mut r = Rng::for_case(seed, "unify", idx);
+        let big = r.chance(1, 8);
+        let nvars = 1 + r.below(if big { 40 } else { 7 });
+        let packed = r.chance(1, 3);
+        let cyclic = r.chance(1, 5);
+        let js = gen_judgements(&mut r, nvars, packed, cyclic);
+        emit(format!("sorted {nvars} 3000 {}", js.join(" ")));
+    }
+}
